@@ -85,8 +85,14 @@ class Dispatcher(InstructionGenerator):
                     range_remaining_km > environment.config.dispatcher.matching_range_km_threshold
                 )
 
+            # a request that is open to several fleets is matched once per call: the fleets solved
+            # after the one that matched it must not send a second vehicle to it
+            matched_in_this_call = frozenset(i.request_id for i in inst_acc)
+
             def _valid_request(r: Request) -> bool:
-                not_already_dispatched = not r.dispatched_vehicle
+                not_already_dispatched = (
+                    not r.dispatched_vehicle and r.id not in matched_in_this_call
+                )
                 valid_access = (
                     r.membership.grant_access_to_membership_id(membership_id)
                     if membership_id is not None
